@@ -125,13 +125,13 @@ def brStep (o : InOpts) (st : BrState) (tok : Str × LexClass) : Except Err (BrS
       .ok ({ st with queue := updLast st.queue (fun q => { q with f := { q.f with word := some tok.1 }, num := some st.termCnt }), termCnt := st.termCnt + 1, state := 4 }, none)
     else .error .valueError
 
-/-- the sentence part after a discobracket tree: the first token after the tree is dropped; then tokens are
-    read until one whose text is exactly "\n"; single-space tokens are skipped; returns (positions -> text, rest) -/
+/-- the sentence part after a discobracket tree: the first token after the tree is dropped (the TAB); then tokens are
+    read up to the whitespace that contains the line break; whitespace separates the words and is not a word;
+    returns (positions -> text, rest) -/
 def discoSentence : List (Str × LexClass) → Nat → List (Nat × Str) → List (Nat × Str) × List (Str × LexClass)
   | [], _, acc => (acc.reverse, [])
-  | (t, _) :: rest, pos, acc =>
-    if t == [' '] then discoSentence rest pos acc
-    else if t == ['\n'] then (((pos, t) :: acc).reverse, rest)
+  | (t, c) :: rest, pos, acc =>
+    if c == .ws then (if t.contains '\n' then (acc.reverse, rest) else discoSentence rest pos acc)
     else discoSentence rest (pos + 1) ((pos, t) :: acc)
 
 mutual
@@ -165,8 +165,8 @@ def brLoop (o : InOpts) : Nat → BrState → List (Str × LexClass) → Except 
         match rest with
         | [] => .error .valueError      -- "no sentence after tree"
         | _first :: rest1 =>
-          -- `while lextoken != "\n"` tests the token just read (initially the first one after the tree)
-          let (tm, rest2) := if _first.1 == ['\n'] then ([], rest1) else discoSentence rest1 1 []
+          -- the loop tests the token just read (initially the first one after the tree): whitespace with a line break ends it
+          let (tm, rest2) := if _first.2 == .ws && _first.1.contains '\n' then ([], rest1) else discoSentence rest1 1 []
           match discoApply o.discoReordered tm t with
           | some t' => brLoop o fuel { st' with out := (sid, t') :: st'.out } rest2
           | none => .error .valueError
